@@ -29,6 +29,7 @@ var suites = map[string]suiteFn{
 	"sql-where":        adapters.SQLWhereSuite,
 	"mem-roles":        adapters.RolesSuite(adapters.MemRoles),
 	"live-supervise":   live.Supervise,
+	"live-await":       live.AwaitSuite,
 	"sim-schedule":     sim.ScheduleSuite,
 	"mem-streamer":     adapters.StreamerSuite,
 	"mem-connector":    adapters.ConnectorSuite,
